@@ -416,8 +416,8 @@ def matrix(thorough=False):
                 cases.append(case("error_residual", fact, {"d": d, "m": m}, f"d{d}", "constraint_shape", str(m)))
 
     # ---- matrix-free ensembles: S >= n required
-    for n in (2, 3, 4):
-        for S in (1, 2, 3, 4, 5, 8):
+    for n in ((2, 3, 4) if thorough else (2, 3)):
+        for S in ((1, 2, 3, 4, 5, 8) if thorough else (1, 2, 3, 4)):
             cases.append(case("matfree_ens", "matfree", {"S": S, "n": n}, f"n{n}", "num_ensembles", str(S)))
 
     # ---- suitability warnings
